@@ -769,6 +769,9 @@ func (c *evalCtx) call(x *ast.CallExpr) tval {
 		return tval{Term{S: "(store " + at.S + " " + c.term(arg(1)).S + " " + c.term(arg(2)).S + ")", Sort: at.Sort}, a.T}
 	case "hasSuffix":
 		return tval{mk(SBool, "(str.suffixof %s %s)", c.term(arg(1)).S, c.term(arg(0)).S), tBool}
+	case "cast":
+		// cast(e, T): the reference e viewed as a value of type T
+		return tval{c.term(arg(0)), c.parseType(exprString(arg(1)))}
 	case "asobj":
 		// asobj(e): the reference e viewed as a value of the interface type Object
 		t := c.parseType("Object")
@@ -810,6 +813,28 @@ func (c *evalCtx) call(x *ast.CallExpr) tval {
 				}
 				parts = append(parts, c.r.frameFormula(sig, c.st.compAt(c.cur, comp, sig), c.st.compAt(c.old, comp, sig), c.old.alloc, nil, true))
 			}
+		}
+		return tval{And(parts...), tBool}
+	case "preservedAt":
+		// preservedAt(comp, ref): the component agrees with the old state at every old reference but ref
+		if c.old == nil {
+			c.fail("preservedAt() needs an old state")
+		}
+		name := strings.ReplaceAll(strings.Trim(exprString(arg(0)), `"`), " ", "")
+		tg := c.term(arg(1))
+		var parts []Term
+		for _, comp := range c.r.v.expandMods([]string{name}) {
+			sig, ok := c.st.compSig[comp]
+			if !ok {
+				if sg, found := c.r.v.sigOfComp(comp); found {
+					c.st.compSig[comp] = sg
+					sig, ok = sg, true
+				}
+			}
+			if !ok {
+				c.fail("preservedAt: unknown component %s", comp)
+			}
+			parts = append(parts, c.r.frameFormula(sig, c.st.compAt(c.cur, comp, sig), c.st.compAt(c.old, comp, sig), c.old.alloc, []Term{tg}, true))
 		}
 		return tval{And(parts...), tBool}
 	case "unchanged":
